@@ -505,9 +505,62 @@ def check_pct(c, st):
     return None
 
 
+EMPTY_QUERY_REF = 'navigate:empty-query-reference:base-query-kept'
+
+
+def check_dotbase(c, st):
+    """A base that was never normalized: its own path holds '.' / '..' segments.  A reference with a path resolves by
+    the literal RFC algorithm (merge, then remove dot segments); an empty-path reference keeps the base's path, which
+    the result must hold with its dot segments removed (the result never contains any)."""
+    uu = common.load('urlutils')
+    base, ref = c['base'], c['ref']
+    st.monitor_evals += 1
+    bs, ba, bp, bq, bf = RE_SPLIT.match(base).groups()
+    rs, ra, rp, rq, rf = RE_SPLIT.match(ref).groups()
+    if rs or ra is not None:
+        return None
+    if rp == '':
+        clean = recompose((bs, ba, remove_dot_segments(bp), bq, bf))
+        want = rfc_resolve(clean, ref)
+    else:
+        want = rfc_resolve(base, ref)
+    try:
+        b = uu.URL(base)
+        before = b.to_text()
+        res = b.navigate(uu.URL(ref) if c.get('ref_as_url') else ref)
+        got = res.to_text()
+        segs = list(res.path_parts)
+        after = b.to_text()
+        res.normalize()
+        again = res.to_text()
+    except Exception as e:
+        return ('navigate-raised:%s:dotted-base' % type(e).__name__, 'URL(%r).navigate(%r) raised %r' % (base, ref, e))
+    st.count('dotted-base-cases:' + ('empty-path-ref' if rp == '' else 'path-ref'))
+    # the URL type does not tell an empty-but-present query or fragment ('?', '#') from an absent one and never
+    # writes the bare delimiter: a trailing empty '?' / '#' is not compared
+    ws, wa, wp, wq, wf = RE_SPLIT.match(want).groups()
+    want = recompose((ws, wa, wp, wq or None, wf or None))
+    if rp == '' and rq == '' and bq and norm(got) == norm(recompose((ws, wa, wp, bq, wf or None))):
+        return (EMPTY_QUERY_REF, 'URL(%r).navigate(%r) -> %r: the reference has a query (an empty one), RFC 3986 5.2.2 '
+                'gives %r' % (base, ref, got, want))
+    if norm(got) != norm(want):
+        return ('navigate:dotted-base:%s' % refshape(ref)[0], 'URL(%r).navigate(%r) -> %r, expected %r'
+                % (base, ref, got, want))
+    if '.' in segs or '..' in segs:
+        return ('result-has-dot-segments', 'URL(%r).navigate(%r) -> %r' % (base, ref, got))
+    if after != before:
+        return ('base-modified', 'URL(%r) reads %r after navigate(%r)' % (base, after, ref))
+    if again != got:
+        return ('normalize-not-idempotent', 'URL(%r).navigate(%r) -> %r, normalize() turns it into %r'
+                % (base, ref, got, again))
+    return None
+
+
 def check(c, st):
     if c['kind'] == 'pct':
         return check_pct(c, st)
+    if c['kind'] == 'dotbase':
+        return check_dotbase(c, st)
     if c['kind'] == 'untouched':
         return check_base_untouched(c, st)
     return check_norm(c, st) if c['kind'] == 'norm' else check_nav(c, st)
@@ -619,6 +672,21 @@ def run(ctx):
                          check, 'sys', None, shr)
         if ctx.out_of_time():
             break
+    # bases that were never normalized (dot segments in the base's own path), systematically: every dotted path of up
+    # to three segments x every empty-path reference and a few path references
+    import itertools
+    j = 0
+    for n in (1, 2, 3):
+        for segs in itertools.product(['.', '..', 'a', 'b', ''], repeat=n):
+            if '.' not in segs and '..' not in segs:
+                continue
+            for tail in ('', '?x=1', '#f', '?x=1#f'):
+                j += 1
+                if j % ctx.nshards != ctx.shard:
+                    continue
+                for ref in ('', '#t', '?y=2', '?y=2#t', '?', '#', 'x', '.', '../y', '/r', 'x/./y?k=v'):
+                    run_case(ctx, {'kind': 'dotbase', 'base': 'http://host/' + '/'.join(segs) + tail, 'ref': ref,
+                                   'ref_as_url': bool(j % 3 == 0)}, check, 'dotbase', None, shr)
     ctx.stats.count('systematic_refs_done', i)
     explore_cases(ctx, gen, check, {'quick': 30000, 'thorough': 750000}[ctx.tier], 'nav')
 
